@@ -1,9 +1,9 @@
 package db
 
 import (
+	"errors"
 	"os"
 	"path/filepath"
-	"errors"
 	"strings"
 
 	"github.com/tailscale/setec/acl"
